@@ -27,7 +27,10 @@ assert len(ALPHABET) == 30 and len(set(ALPHABET)) == 30
 
 # --------------------------------------------------------------------------- encodings
 def hx(s):
-    return s.encode('latin-1').hex()
+    try:
+        return s.encode('latin-1').hex()
+    except UnicodeEncodeError:       # outside the model's alphabet: never sent to the driver, only kept in observations
+        return s.encode('utf-8').hex()
 
 
 def unhx(h):
@@ -317,7 +320,7 @@ def mutate(rng, s):
             toks[i], toks[j] = toks[j], toks[i]
         elif r < 0.85:
             toks.insert(i, rng.choice(['(', ')', '[', ']', '{', '}', '{', '}', '<', '>', '`', '```', '\n```\n', '=', '#', "'", '"', '\n', ' ',
-                                       '{}', '{{', '}}', '{0}', '{:}', '{!r}', '{[0]}', '{.x}', '\x00', '\x0c', '\x85', '\xa0', '\xe9', '\\']))
+                                       '{}', '{{', '}}', '{0}', '{:}', '{!r}', '{[0]}', '{.x}', '{:5}', '{:>8}', '{!s}', '{!a}', '{0:4611686018427387904}', '{:99999999999}', '{:.3}', '{0.upper}', '{0[0]}', '{:{}}', ':', '!', ';', '\x00', '\x0c', '\x85', '\xa0', '\xe9', '\\']))
         else:
             toks.insert(i, rng.choice(ALPHABET))
         if not toks:
